@@ -320,7 +320,7 @@ def _inspect(obj, name, word_wrap):
     doc = getdoc(obj) or ""
     sig = signature(obj)
     is_function = isfunction(obj)
-    ir = docstring(doc, emit_default_doc=is_function) if doc else {}
+    ir = docstring(doc, emit_default_doc=is_function)  # without a docstring: the empty description
     if not is_function and "type" in ir:
         del ir["type"]
 
@@ -347,7 +347,7 @@ def _inspect(obj, name, word_wrap):
 
     if is_function:
         ir["type"] = {"self": "self", "cls": "cls"}.get(
-            next(iter(sig.parameters.values())).name, "static"
+            next(iter(sig.parameters), None), "static"  # a function may take no argument at all
         )
         parser = function
     else:
